@@ -805,6 +805,25 @@ fn c04_cases(thorough: bool, v: &mut dyn FnMut(Case)) {
     }
 }
 
+/// whole fits on the (N, S) shape grid (byte-sized block limits of column-blocked code)
+fn c04_shape_cases(thorough: bool, v: &mut dyn FnMut(Case)) {
+    let fam = Family::Exp2Off;
+    let (alpha, cf) = truths(&fam, false)[1].clone();
+    for n in [64usize, 257, 512, 1025] {
+        for s in [5usize, 7, 20, 33] {
+            for f32_ in [false, true] {
+                for par in [false, true] {
+                    if !thorough && (n / 64 + s + f32_ as usize + par as usize) % 3 != 1 {
+                        continue;
+                    }
+                    let coefs: Vec<Vec<f64>> = (0..s).map(|k| cf.iter().map(|c| c * (1.0 + 0.25 * k as f64)).collect()).collect();
+                    v(Case { fam: fam.clone(), alpha: alpha.clone(), coefs, n, prov: Prov::Hand, f32_, par, mrhs_api: true, w: if s % 2 == 0 { WKind::Ramp } else { WKind::None }, level: 1e-3, noise_variant: 1, start_mult: vec![1.05; fam.p()], solver: SolverCfg::default_(), pool: 0, eps: None });
+                }
+            }
+        }
+    }
+}
+
 fn dispatch<T: Sc>(ctx: &Ctx, c: &Case, prop: &str, seed: u64) {
     let su = setup::<T>(c, seed);
     let cj = case_json(c);
@@ -877,7 +896,10 @@ fn main() {
         };
         match prop.as_str() {
             "C05" => c05_cases(thorough, &mut visit),
-            "C04" => c04_cases(thorough, &mut visit),
+            "C04" => {
+                c04_cases(thorough, &mut visit);
+                c04_shape_cases(thorough, &mut visit);
+            }
             "C02" => {
                 c04_cases(thorough, &mut visit);
                 let mut k = 0u64;
